@@ -1280,7 +1280,7 @@ class TcpServerStack(RemoteStack, IpStack):
         pkt, ca = self.txPkts.popleft()
 
         try:
-            self.handler.transmitIx(self, pkt.packed, ca)
+            self.handler.transmitIx(pkt.packed, ca)
         except ValueError as ex:
             console.profuse("{0}: Error sending to {1}\n{2}\n".format(self.name,
                                                                       ca,
